@@ -48,12 +48,13 @@ PROFILE = {
     "p_frozen": 0.15,
     "p_nested_frozen": 0.1,
     "p_class_dnc": 0.12,
+    "p_bare_class": 0.2,
     "p_inplace": 0.55,
     "p_fault": 0.3,
     "p_bad": 0.28,
     "p_raw": 0.05,
     "n_ops": (4, 12),
-    "w": {"update": 5, "transform": 4, "set": 3, "del": 2, "eadd": 5, "eupd": 3, "etr": 3, "undeclared": 1, "alias": 1, "rollback_probe": 4, "reset": 2, "nested_probe": 3},
+    "w": {"update": 5, "transform": 4, "set": 3, "del": 2, "eadd": 5, "eupd": 3, "etr": 3, "undeclared": 1, "alias": 1, "rollback_probe": 4, "reset": 2, "nested_probe": 3, "empty_probe": 2},
 }
 
 
@@ -336,6 +337,85 @@ def _keyed_extra():
     return evaluations, violations, keys
 
 
+# ---------------------------------------------------------------------------
+# extra (3): failing element edits whose failure comes from the CONTAINER after the element was computed
+# (fixed findings c736c45: a set rejecting the replacement of an element; 33f9c1a: a KeyedList rejecting the new key
+#  of a do_not_copy item that was edited in place)
+# ---------------------------------------------------------------------------
+
+
+def _container_reject_extra():
+    from typing import Dict, List, Set
+
+    from spec_classes import spec_class
+    from spec_classes.types import KeyedList, KeyedSet
+
+    @spec_class(bootstrap=True)
+    class Tags:
+        tags: Set[tuple]
+        names: Set[str]
+
+    @spec_class(key="name", do_not_copy=True, bootstrap=True)
+    class Res:  # items that cannot be copied: helpers edit them in place
+        name: str
+        v: int = 0
+
+    @spec_class(bootstrap=True)
+    class Pool:
+        items: KeyedList[Res, str]
+        members: KeyedSet[Res, str]
+        plain: List[Res]
+        table: Dict[str, Res]
+
+    evaluations, violations, keys = 0, [], []
+
+    def probe(label, mk, fn):
+        nonlocal evaluations
+        o = mk()
+        before = (H.deep_snapshot(o),) + tuple(_keyed_view(c) for c in (o.__dict__.get("items"), o.__dict__.get("members")) if c is not None)
+        try:
+            fn(o)
+        except BaseException as e:  # noqa: BLE001
+            evaluations += 1
+            keys.append((label, type(e).__name__))
+            after = (H.deep_snapshot(o),) + tuple(_keyed_view(c) for c in (o.__dict__.get("items"), o.__dict__.get("members")) if c is not None)
+            if after != before:
+                violations.append({"case": {"extra": "container-reject", "call": label}, "violation": [f"{label} raised {H.exc_name(e)} but changed the receiver"]})
+
+    unhashable = [lambda t: (t, []), lambda t: ([],), lambda t: (1, {2: 3})]
+    for n in range(1, 4):
+        mk = lambda n=n: Tags(tags={(i,) for i in range(n)}, names={str(i) for i in range(n)})  # noqa: E731
+        for i in range(n):
+            for j, f in enumerate(unhashable):
+                for ip in (True, False):
+                    probe(f"transform_tag(({i},), ->unhashable#{j}) ip={int(ip)} n={n}", mk, lambda o, i=i, f=f, ip=ip: o.transform_tag((i,), f, _inplace=ip))
+                    probe(f"update_tag(({i},), unhashable#{j}) ip={int(ip)} n={n}", mk, lambda o, i=i, f=f, ip=ip: o.update_tag((i,), f((i,)), _inplace=ip))
+            for ip in (True, False):
+                probe(f"with_tag(unhashable) ip={int(ip)} n={n}", mk, lambda o, ip=ip: o.with_tag((9, []), _inplace=ip))
+                probe(f"transform_name({i!r}, ->3) ip={int(ip)} n={n}", mk, lambda o, i=i, ip=ip: o.transform_name(str(i), lambda _v: 3, _inplace=ip))
+    for n in range(2, 4):
+        names = [chr(97 + i) for i in range(n)]
+
+        def mkp(names=names):
+            return Pool(items=[Res(k, v=i) for i, k in enumerate(names)], members=[Res(k, v=i) for i, k in enumerate(names)], plain=[Res(k) for k in names], table={k: Res(k) for k in names})
+
+        for a in names:
+            for b in names:
+                if a == b:
+                    continue
+                # in place only: without _inplace an item of a do_not_copy class is edited in place by documented design
+                probe(f"update_item({a!r}, v=5, name={b!r}) ip=1 n={n}", mkp, lambda o, a=a, b=b: o.update_item(a, v=5, name=b, _inplace=True))
+                probe(f"update_item({a!r}, name={b!r}, v=5) ip=1 n={n}", mkp, lambda o, a=a, b=b: o.update_item(a, name=b, v=5, _inplace=True))
+                probe(f"transform_item({a!r}, v=inc, name=->{b!r}) ip=1 n={n}", mkp, lambda o, a=a, b=b: o.transform_item(a, v=lambda v: v + 1, name=lambda _n: b, _inplace=True))
+                probe(f"update_item(#{names.index(a)}, v=5, name={b!r}, _by_index) ip=1 n={n}", mkp, lambda o, a=a, b=b: o.update_item(names.index(a), v=5, name=b, _by_index=True, _inplace=True))
+            probe(f"update_item({a!r}, v='x') ip=1 n={n}", mkp, lambda o, a=a: o.update_item(a, v="x", _inplace=True))
+            probe(f"update_item({a!r}, v=5, name=7) ip=1 n={n}", mkp, lambda o, a=a: o.update_item(a, v=5, name=7, _inplace=True))
+            probe(f"update_plain(#0, v=5, name=7) ip=1 n={n}", mkp, lambda o: o.update_plain(0, v=5, name=7, _by_index=True, _inplace=True))
+            probe(f"update_table({a!r}, v=5, name=7) ip=1 n={n}", mkp, lambda o, a=a: o.update_table(a, v=5, name=7, _inplace=True))
+            probe(f"update_member({a!r}, v=5, name=7) ip=1 n={n}", mkp, lambda o, a=a: o.update_member(a, v=5, name=7, _inplace=True))
+    return evaluations, violations, keys
+
+
 def extra(tier, rng):
     ns = _extra_ns()
     K = ns["K"]
@@ -361,12 +441,16 @@ def extra(tier, rng):
     evaluations += ev2
     violations += viol2
     keys += keys2
+    ev3, viol3, keys3 = _container_reject_extra()
+    evaluations += ev3
+    violations += viol3
+    keys += keys3
     return {
         "evaluations": evaluations,
         "nontrivial": keys,
         "violations": violations,
         "disagreements": [],
-        "info": {"failing_calls_on_classes_with_invalidated_by": n_inv, "failing_calls_on_keyed_attributes_and_containers": ev2},
+        "info": {"failing_calls_on_classes_with_invalidated_by": n_inv, "failing_calls_on_keyed_attributes_and_containers": ev2, "element_edits_rejected_by_the_container": ev3},
     }
 
 
